@@ -129,7 +129,14 @@ def ev(sys, switches, e, ent, sim, period, parameters):
         options = options_of(e[3])
         if e[3] == "both" and e[1] % 2 == 1:
             options = options[::-1]      # both orders of the two options are exercised
-        return pop(var_name(sys, e[1]), q, options) + 0
+        r = pop(var_name(sys, e[1]), q, options) + 0
+        if e[3] == "divide":
+            x = numpy.asarray(r, dtype=numpy.float64)
+            if numpy.any(numpy.isfinite(x) & (x != numpy.floor(x))):
+                # DESIGN section 4: only exact quotients are compared; a later cast to bool or a comparison
+                # would hide the rounding from ints() (a malformed cross-family DIVIDE can be accepted)
+                raise Inexact(f"inexact DIVIDE dependency: {x.tolist()!r}")
+        return r
     if tag == "bin":
         a = ev(sys, switches, e[2], ent, sim, period, parameters)
         b = ev(sys, switches, e[3], ent, sim, period, parameters)
